@@ -3,6 +3,8 @@
 Deciding monitors: vlib.geom4 (outcome monitors on the default folded getters of every 4-D grid object) against the polar-duality face
 oracle on the double cover.  Workload: cube4D and randomQ over a sweep of N.
 """
+import os
+
 import numpy as np
 
 from vlib import geom4
@@ -29,6 +31,13 @@ def drive(F4, alg, N, order=0, selftest=False):
     REC.begin_case({"alg": alg, "N": N, "order": order}, cls=[f"alg={alg}", f"N<={10 * ((N + 9) // 10)}"], sample=(N == 8))
     try:
         g = F4.create(alg_name=alg, N=N)
+        if order % 4 == 1:
+            # history: the very first matrix request on this object fails (unknown property name, the way the package's own callers reach
+            # the routine); nothing of the aborted pass may survive into the answers that follow
+            try:
+                g.get_spherical_voronoi()._calculate_N_N_array(sel_property="no such property")
+            except Exception:
+                REC.classes["first matrix request on the object failed"] += 1
         calls = [g.get_voronoi_adjacency, g.get_cell_borders, g.get_center_distances]
         calls = calls[order % 3:] + calls[:order % 3]
         from vlib.rec import call_and_hold
@@ -93,6 +102,37 @@ def drive_consumers(F4):
             REC.crashed("C04.call_raised", e)
 
 
+def drive_foreign_pickle(F4):
+    """history across processes: another interpreter builds a rotation grid's cell object and pickles it; this process first builds and uses
+    grids of its own, then loads the foreign object and asks it under the same monitors (identity tokens do not survive serialisation)"""
+    import pickle
+    import subprocess
+    import sys
+    import tempfile
+    for alg, N, own in (("randomQ", 12, ("cube4D", 10)), ("cube4D", 9, ("randomQ", 9))):
+        REC.begin_case({"kind": "cell object pickled by another process", "alg": alg, "N": N}, cls="cell object pickled by another process")
+        with tempfile.TemporaryDirectory(prefix="verif_c04p_") as d:
+            path = os.path.join(d, "sv.pkl")
+            code = ("import pickle, sys, warnings; warnings.filterwarnings('ignore');"
+                    "from molgri.space.rotobj import SphereGrid4DFactory as F;"
+                    f"sv = F.create(alg_name={alg!r}, N={N}).get_spherical_voronoi(); sv.get_voronoi_adjacency();"
+                    f"pickle.dump(sv, open({path!r}, 'wb'))")
+            env = dict(os.environ, MOLGRI_VERIF="0")
+            r = subprocess.run([sys.executable, "-c", code], env=env, stdout=subprocess.DEVNULL, stderr=subprocess.PIPE, timeout=900)
+            if r.returncode != 0 or not os.path.exists(path):
+                REC.notes["cell objects cannot be pickled by this tree (not judged)"] += 1
+                continue
+            try:
+                mine = F4.create(alg_name=own[0], N=own[1])
+                mine.get_voronoi_adjacency(); mine.get_cell_borders()
+                sv = pickle.load(open(path, "rb"))
+                sv.get_voronoi_adjacency(); sv.get_cell_borders(); sv.get_center_distances()
+                mine.get_center_distances(); mine.get_voronoi_adjacency()
+                REC.nontrivial_case(("foreign pickle", alg, N))
+            except Exception as e:
+                REC.crashed("C04.call_raised", e)
+
+
 def shards(tier, seed):
     Ns = QUICK_N if tier == "quick" else THOROUGH_N
     jobs = [(alg, N) for alg in ("cube4D", "randomQ") for N in Ns]
@@ -123,6 +163,7 @@ def run_shard(spec):
     c07.install()
     if spec.get("consumers"):
         drive_consumers(SphereGrid4DFactory)
+        drive_foreign_pickle(SphereGrid4DFactory)
     for k, (alg, N) in enumerate(spec["jobs"]):
         drive(SphereGrid4DFactory, alg, N, order=k + spec.get("seed", 0), selftest=(N in (8, 12, 20, 40, 60, 100) or k == 0))
 
